@@ -31,7 +31,7 @@ type c05Cfg struct {
 	Class    int  `json:"class"`    // 0 full samples, 1 metadata-only + data written separately, 2 sample intervals
 	Optimize bool `json:"optimize"` // OptimizeTrun
 	SW       bool `json:"sw"`       // EncodeSW instead of Encode
-	Extra    int  `json:"extra"`    // 0 none, 1 emsg (AddEmsg), 2 free after mdat, 3 unknown box in traf, 4 uuid(tfxd) in moof, 5 prft after mdat, 6 mdat with 64-bit header, 7/8 non-zero trex defaults in the init segment
+	Extra    int  `json:"extra"`    // 0 none, 1 emsg (AddEmsg), 2 free after mdat, 3 unknown box in traf, 4 uuid(tfxd) in moof, 5 prft after mdat, 6 mdat with 64-bit header, 7/8 non-zero trex defaults in the init segment, 9 media segment without styp
 }
 
 type c05History struct {
@@ -114,6 +114,9 @@ func c05Build(h *c05History) (*c05Built, error) {
 		}
 	}
 	b.Seg = mp4.NewMediaSegment()
+	if cfg.Extra == 9 {
+		b.Seg = mp4.NewMediaSegmentWithoutStyp() // the first moof is the first box of the media part
+	}
 	if cfg.Optimize {
 		b.Seg.EncOptimize = mp4.OptimizeTrun
 	}
@@ -290,16 +293,36 @@ func c05Verify(c *vf.Ctx, h *c05History, b *c05Built, enc []byte) bool {
 		sigp = "roundtrip(optimized)"
 	}
 	ok := true
-	for path := 0; path < 2; path++ {
+	split := c06SplitAt(enc)
+	for path := 0; path < 4; path++ {
 		var f *mp4.File
 		var err error
-		if path == 0 {
+		switch path {
+		case 0:
 			f, err = mp4.DecodeFile(bytes.NewReader(enc))
-		} else {
+		case 1:
 			f, err = mp4.DecodeFileSR(bitsSR(enc))
+		default:
+			// init segment and media segment as separate byte strings (the media part starts at offset 0 of its own
+			// stream and is decoded without a moov): the trex boxes come from the separately decoded init
+			var fi *mp4.File
+			if path == 2 {
+				fi, err = mp4.DecodeFile(bytes.NewReader(enc[:split]))
+				if err == nil {
+					f, err = mp4.DecodeFile(bytes.NewReader(enc[split:]))
+				}
+			} else {
+				fi, err = mp4.DecodeFileSR(bitsSR(enc[:split]))
+				if err == nil {
+					f, err = mp4.DecodeFileSR(bitsSR(enc[split:]))
+				}
+			}
+			if err == nil && fi != nil && f != nil {
+				f.Init = fi.Init
+			}
 		}
-		if err != nil || f.Init == nil {
-			c.Fail(sigp+" decode error", "encoded init+segment decodes", det(fmt.Sprint(err)))
+		if err != nil || f == nil || f.Init == nil {
+			c.Fail(sigp+" decode error", "encoded init+segment decodes", det(fmt.Sprintf("path %d: %v", path, err)))
 			return false
 		}
 		for ti, trex := range f.Init.Moov.Mvex.Trexs {
@@ -530,7 +553,7 @@ func c05Configs(full bool) []c05Cfg {
 				for _, sw := range []bool{false, true} {
 					extras := []int{0}
 					if full {
-						extras = []int{0, 1, 2, 3, 4, 5, 6, 7, 8}
+						extras = []int{0, 1, 2, 3, 4, 5, 6, 7, 8, 9}
 					}
 					for _, ex := range extras {
 						out = append(out, c05Cfg{Multi: multi, Class: class, Optimize: opt, SW: sw, Extra: ex})
@@ -552,7 +575,7 @@ func runC05(c *vf.Ctx) {
 		c.SetBudget(4 * 60 * 1e9)
 	}
 	allKinds := []int{0, 1, 2, 3, 4, 5, 6, 7, 8, 9, 10, 11, 12, 13, 14, 15, 16, 17, 18, 19, 20}
-	c.Rule = "explicit enumeration (DFS, every prefix checked) of all operation histories on a real MediaSegment: op = add sample (16 kinds = dur{1,2} x size{1,2} x {sync,non-sync} x cto{0,-1}, plus 5 boundary kinds: dur 2^31 / 2^32-1 / 0, cto +-2^31, all fields 0) to track t in {1} or {1,2,3} through each API variant of the data class (full: AddFullSample/AddFullSampleToTrack; metadata-only + separately written data: AddSample/AddSampleToTrack/AddSamples with one and with two samples per call; intervals: AddSampleInterval with one and with two samples), or start a new fragment (<= 2 fragments); configurations = {single, multi-track} x data class x OptimizeTrun on/off x Encode/EncodeSW x extra {none, emsg, free, unknown-in-traf, uuid-in-moof, prft, 64-bit mdat header, two sets of non-zero trex defaults in the init segment}. Each history is encoded, decoded by both decoders (GetFullSamples per track) and by an independent fragment reader, and compared with the added samples. Distinct = distinct encoded byte strings."
+	c.Rule = "explicit enumeration (DFS, every prefix checked) of all operation histories on a real MediaSegment: op = add sample (16 kinds = dur{1,2} x size{1,2} x {sync,non-sync} x cto{0,-1}, plus 5 boundary kinds: dur 2^31 / 2^32-1 / 0, cto +-2^31, all fields 0) to track t in {1} or {1,2,3} through each API variant of the data class (full: AddFullSample/AddFullSampleToTrack; metadata-only + separately written data: AddSample/AddSampleToTrack/AddSamples with one and with two samples per call; intervals: AddSampleInterval with one and with two samples), or start a new fragment (<= 2 fragments); configurations = {single, multi-track} x data class x OptimizeTrun on/off x Encode/EncodeSW x extra {none, emsg, free, unknown-in-traf, uuid-in-moof, prft, 64-bit mdat header, two sets of non-zero trex defaults in the init segment, media segment without styp}. Each history is encoded, decoded by both decoders - once as one byte string and once with init and media segment as separate byte strings - (GetFullSamples per track, twice; every GetSampleInterval; GetSampleNrFromTime of every sample) and by an independent fragment reader, and compared with the added samples. Distinct = distinct encoded byte strings."
 	type job struct {
 		cfg   c05Cfg
 		depth int
